@@ -364,3 +364,427 @@ Proof.
     + destruct H0 as [->|H0]; [rewrite Hst0 in Hna; discriminate|exact H0].
     + intros e He. apply Hother. right. exact He.
 Qed.
+
+(* ------------------------------------------------------------------ one block of the edited tree *)
+
+Lemma nthZ_some {A} i (l : list A) x : nthZ i l = Some x -> 0 <= i /\ nth_error l (Z.to_nat i) = Some x.
+Proof. unfold nthZ. destruct (Z.ltb_spec i 0) as [Hlt|Hge]; [discriminate|]. intros Hn. split; [lia|exact Hn]. Qed.
+
+Lemma nthZ_zero {A} (x : A) l : nthZ 0 (x :: l) = Some x.
+Proof. reflexivity. Qed.
+
+Lemma apply_blk_untouched es bp ss i s :
+  edits_ok es -> pairwise es = true ->
+  nthZ i ss = Some s -> covered es bp i = false ->
+  nthZ (i + shiftsum es bp i) (apply_blk es bp ss) = Some (apply_stmt es bp i s).
+Proof.
+  intros Hok Hp Hn Hc. apply nthZ_some in Hn as [Hi Hn].
+  destruct (splice_decomp (apply_stmt es bp) (starts es bp) (covered es bp) ss 0 _ s Hn)
+    as (pre & post & E & L).
+  rewrite Z.add_0_l, Z2Nat.id in E by assumption. rewrite Hc in E.
+  unfold apply_blk. rewrite E, app_assoc.
+  rewrite <- (untouched_pos es bp i Hok Hp Hi Hc), <- L, <- zlen_app.
+  rewrite <- (Z.add_0_r (zlen (pre ++ starts es bp i))).
+  rewrite nthZ_app_r by lia. reflexivity.
+Qed.
+
+Lemma apply_blk_replaced es bp ss i s e0 :
+  edits_ok es -> pairwise es = true ->
+  nthZ i ss = Some s -> In e0 es -> contains_b bp i e0 = true ->
+  exists pre post, apply_blk es bp ss = pre ++ enew e0 ++ post /\ zlen pre = ei e0 + shiftsum es bp i.
+Proof.
+  intros Hok Hp Hn H0 Hc. apply nthZ_some in Hn as [Hi Hn].
+  destruct (edit_ok_ge e0 (Hok e0 H0)) as [Hi0 Hr0].
+  assert (Hle : ei e0 <= i).
+  { unfold contains_b, in_span in Hc. apply andb_true_iff in Hc as [_ Hc].
+    apply andb_true_iff in Hc as [Hc _]. lia. }
+  assert (Hex : exists s0, nth_error ss (Z.to_nat (ei e0)) = Some s0).
+  { destruct (nth_error ss (Z.to_nat (ei e0))) eqn:E; [eexists; reflexivity|].
+    apply nth_error_None in E. assert (Hnn : nth_error ss (Z.to_nat i) <> None) by congruence.
+    apply nth_error_Some in Hnn. lia. }
+  destruct Hex as [s0 Hs0].
+  destruct (splice_decomp (apply_stmt es bp) (starts es bp) (covered es bp) ss 0 _ s0 Hs0)
+    as (pre & post & E & L).
+  rewrite Z.add_0_l, Z2Nat.id in E by assumption.
+  rewrite (starts_of_replacement es bp i e0 Hp H0 Hc) in E.
+  exists pre. eexists. split; [unfold apply_blk; rewrite E; reflexivity|].
+  rewrite L. apply replaced_pos; assumption.
+Qed.
+
+(* ------------------------------------------------------------------ whole paths *)
+
+Fixpoint anc_replaced (es : list edit) (p : bpath) : bool :=
+  match p with
+  | FuncBody => false
+  | SubBlock q i _ => anc_replaced es q || covered es q i
+  end.
+
+Lemma lastc_covered es q i : covered es q i = true -> exists e, lastc es q i = Some e.
+Proof.
+  intros H. destruct (lastc es q i) eqn:E; [eexists; reflexivity|].
+  apply lastc_none in E. congruence.
+Qed.
+
+Lemma forward_block_err es p : forall x, forward_block es p = Err x -> x = RefErr /\ anc_replaced es p = true.
+Proof.
+  induction p as [|q IH i f]; simpl; intros x H; [discriminate|].
+  destruct (forward_block es q) as [q'|y] eqn:Eq.
+  - rewrite scan_spec in H. simpl in H. destruct (lastc es q i) as [e|] eqn:El; [|discriminate].
+    inversion H; subst. split; [reflexivity|].
+    apply lastc_some in El as [He Hc]. apply orb_true_iff. right.
+    unfold covered. apply existsb_exists. exists e. split; assumption.
+  - inversion H; subst. destruct (IH x eq_refl) as [-> Ha]. split; [reflexivity|].
+    rewrite Ha. reflexivity.
+Qed.
+
+Lemma forward_block_ok es p : forall p', forward_block es p = Ok p' -> anc_replaced es p = false.
+Proof.
+  induction p as [|q IH i f]; simpl; intros p' H; [reflexivity|].
+  destruct (forward_block es q) as [q'|y] eqn:Eq; [|discriminate].
+  rewrite scan_spec in H. simpl in H. destruct (lastc es q i) as [e|] eqn:El; [discriminate|].
+  rewrite (IH q' eq_refl). apply lastc_none in El. rewrite El. reflexivity.
+Qed.
+
+Lemma sub_block_apply es q i s f ss :
+  sub_block s f = Some ss ->
+  sub_block (apply_stmt es q i s) f = Some (apply_blk es (SubBlock q i f) ss).
+Proof. destruct s, f; simpl; intros H; inversion H; subst; reflexivity. Qed.
+
+Lemma forward_block_sound es t :
+  edits_ok es -> pairwise es = true ->
+  forall p ss p', resolve_block t p = Ok ss -> forward_block es p = Ok p' ->
+  resolve_block (apply es t) p' = Ok (apply_blk es p ss).
+Proof.
+  intros Hok Hp. induction p as [|q IH i f]; simpl; intros ss p' Hr Hf.
+  - inversion Hr; inversion Hf; subst. reflexivity.
+  - destruct (resolve_block t q) as [b|] eqn:Eb; [|discriminate].
+    destruct (nthZ i b) as [s|] eqn:En; [|discriminate].
+    destruct (sub_block s f) as [ss'|] eqn:Es; [|discriminate]. inversion Hr; subst ss'.
+    destruct (forward_block es q) as [q'|] eqn:Eq; [|discriminate].
+    rewrite scan_spec in Hf. simpl in Hf.
+    destruct (lastc es q i) eqn:El; [discriminate|]. inversion Hf; subst p'.
+    simpl. rewrite (IH b q' eq_refl eq_refl).
+    rewrite (apply_blk_untouched es q b i s Hok Hp En (lastc_none _ _ _ El)).
+    rewrite (sub_block_apply es q i s f ss Es). reflexivity.
+Qed.
+
+Lemma label_apply_stmt es bp i s : label (apply_stmt es bp i s) = label s.
+Proof. destruct s; reflexivity. Qed.
+
+(* the image of a path, as `_forward_stmt` computes it, in the edited tree *)
+Theorem forward_stmt_sound es t p s :
+  edits_ok es -> pairwise es = true -> resolve_stmt t p = Ok s ->
+  match forward_stmt es p with
+  | Ok (b', i', None) =>
+      covered es (fst p) (snd p) = false /\
+      resolve_stmt (apply es t) (b', i') = Ok (apply_stmt es (fst p) (snd p) s)
+  | Ok (b', i', Some e) =>
+      In e es /\ contains_b (fst p) (snd p) e = true /\
+      exists pre post, resolve_block (apply es t) b' = Ok (pre ++ enew e ++ post) /\ zlen pre = i'
+  | Err x => x = RefErr /\ anc_replaced es (fst p) = true
+  end.
+Proof.
+  intros Hok Hp Hr. destruct p as [q i]. unfold resolve_stmt in Hr. simpl in Hr.
+  destruct (resolve_block t q) as [b|] eqn:Eb; [|discriminate].
+  destruct (nthZ i b) as [s0|] eqn:En; [|discriminate]. inversion Hr; subst s0.
+  unfold forward_stmt. simpl fst. simpl snd.
+  destruct (forward_block es q) as [q'|x] eqn:Eq.
+  - rewrite scan_spec. simpl.
+    pose proof (forward_block_sound es t Hok Hp q b q' Eb Eq) as Hb.
+    destruct (lastc es q i) as [e|] eqn:El.
+    + apply lastc_some in El as [He Hc]. split; [exact He|]. split; [exact Hc|].
+      destruct (apply_blk_replaced es q b i s e Hok Hp En He Hc) as (pre & post & E & L).
+      exists pre, post. rewrite Hb, E. split; [reflexivity|exact L].
+    + apply lastc_none in El. split; [exact El|].
+      unfold resolve_stmt. simpl. rewrite Hb.
+      rewrite (apply_blk_untouched es q b i s Hok Hp En El). reflexivity.
+  - apply forward_block_err in Eq. exact Eq.
+Qed.
+
+(* ------------------------------------------------------------------ EditLog.forward on a statement cursor *)
+
+Definition region (blk : list stmt) (lo hi : Z) : list stmt :=
+  firstn (Z.to_nat (hi - lo)) (skipn (Z.to_nat lo) blk).
+
+Lemma region_mid (pre mid post : list stmt) :
+  region (pre ++ mid ++ post) (zlen pre) (zlen pre + zlen mid) = mid.
+Proof.
+  unfold region, zlen. rewrite Nat2Z.id.
+  replace (Z.to_nat (Z.of_nat (length pre) + Z.of_nat (length mid) - Z.of_nat (length pre)))
+    with (length mid) by lia.
+  rewrite skipn_app, skipn_all, Nat.sub_diag. simpl.
+  rewrite firstn_app, firstn_all, Nat.sub_diag. simpl. apply app_nil_r.
+Qed.
+
+Definition log_faithful (lg : elog) (t : list stmt) : Prop :=
+  edits_ok (l_edits lg) /\ pairwise (l_edits lg) = true /\ l_rtree lg = apply (l_edits lg) t.
+
+Theorem forward_descendant lg t fn p s :
+  log_faithful lg t -> resolve_stmt t p = Ok s ->
+  match forward_stmt_cursor lg fn p with
+  | Ok (CStmt r p') =>
+      r = l_res lg /\
+      exists s', resolve_stmt (l_rtree lg) p' = Ok s' /\
+        ((s' = apply_stmt (l_edits lg) (fst p) (snd p) s /\ label s' = label s
+          /\ covered (l_edits lg) (fst p) (snd p) = false)
+         \/ exists e, In e (l_edits lg) /\ contains_b (fst p) (snd p) e = true /\ enew e = [s'])
+  | Ok (CBlock r b lo hi) =>
+      r = l_res lg /\
+      exists e blk, In e (l_edits lg) /\ contains_b (fst p) (snd p) e = true /\
+        resolve_block (l_rtree lg) b = Ok blk /\ region blk lo hi = enew e /\ (2 <= zlen (enew e))
+  | Ok (CExpr _ _ _) => False
+  | Err x =>
+      x = RefErr /\
+      (fn <> l_src lg \/ anc_replaced (l_edits lg) (fst p) = true
+       \/ exists e, In e (l_edits lg) /\ contains_b (fst p) (snd p) e = true /\ enew e = [])
+  end.
+Proof.
+  intros (Hok & Hp & Ht) Hr. unfold forward_stmt_cursor.
+  destruct (Z.eqb_spec fn (l_src lg)) as [Efn|Efn]; simpl.
+  2:{ split; [reflexivity|]. left. exact Efn. }
+  pose proof (forward_stmt_sound (l_edits lg) t p s Hok Hp Hr) as H.
+  destruct (forward_stmt (l_edits lg) p) as [[[b' i'] [e|]]|x].
+  - destruct H as (He & Hc & pre & post & Hb & L).
+    unfold eins. destruct (enew e) as [|s1 [|s2 rest]] eqn:En.
+    + simpl. split; [reflexivity|]. right. right. exists e. repeat split; assumption.
+    + assert (Hres : resolve_stmt (l_rtree lg) (b', i') = Ok s1).
+      { unfold resolve_stmt. simpl. rewrite Ht, Hb.
+        rewrite <- L, <- (Z.add_0_r (zlen pre)), nthZ_app_r by lia. reflexivity. }
+      simpl. unfold mk_stmt_cursor. rewrite Hres.
+      split; [reflexivity|]. exists s1. split; [exact Hres|]. right. exists e. repeat split; assumption.
+    + assert (Hlen : 2 <= zlen (s1 :: s2 :: rest)) by (unfold zlen; simpl length; lia).
+      destruct (Z.eqb_spec (zlen (s1 :: s2 :: rest)) 1) as [E1|_]; [lia|].
+      destruct (Z.eqb_spec (zlen (s1 :: s2 :: rest)) 0) as [E0|_]; [lia|].
+      unfold mk_block_cursor. rewrite Ht, Hb.
+      assert (Hb2 : (0 <=? i') && (i' + zlen (s1 :: s2 :: rest) <=? zlen (pre ++ (s1 :: s2 :: rest) ++ post)) = true).
+      { rewrite !zlen_app. pose proof (zlen_nonneg pre). pose proof (zlen_nonneg post).
+        apply andb_true_iff. split; lia. }
+      rewrite Hb2. split; [reflexivity|]. exists e. eexists. split; [exact He|]. split; [exact Hc|].
+      split; [exact Hb|]. rewrite En. split; [|exact Hlen].
+      rewrite <- L. apply region_mid.
+  - destruct H as (Hc & Hres). rewrite <- Ht in Hres. unfold mk_stmt_cursor. rewrite Hres.
+    split; [reflexivity|]. eexists. split; [exact Hres|]. left.
+    split; [reflexivity|]. split; [apply label_apply_stmt|exact Hc].
+  - destruct H as (-> & Ha). split; [reflexivity|]. right. left. exact Ha.
+Qed.
+
+(* ------------------------------------------------------------------ untouched statements are unchanged *)
+
+Fixpoint stmt_ind2 (P : stmt -> Prop)
+    (HL : forall l, P (SLeaf l))
+    (H1 : forall l b, Forall P b -> P (SOne l b))
+    (H2 : forall l a b, Forall P a -> Forall P b -> P (STwo l a b))
+    (s : stmt) {struct s} : P s :=
+  let lst := fix lst (ss : list stmt) : Forall P ss :=
+    match ss with
+    | [] => Forall_nil P
+    | x :: r => Forall_cons x (stmt_ind2 P HL H1 H2 x) (lst r)
+    end in
+  match s with
+  | SLeaf l => HL l
+  | SOne l b => H1 l b (lst b)
+  | STwo l a b => H2 l a b (lst a) (lst b)
+  end.
+
+Lemma splice_id f st cov ss :
+  (forall j, st j = []) -> (forall j, cov j = false) ->
+  Forall (fun s => forall j, f j s = s) ss ->
+  forall i, splice f st cov ss i = ss.
+Proof.
+  intros Hst Hcov H. induction H as [|s r Hs Hr IH]; intros i; simpl.
+  - apply Hst.
+  - rewrite Hst, Hcov, Hs, IH. reflexivity.
+Qed.
+
+Definition none_beneath (es : list edit) (bp : bpath) (i : Z) : Prop :=
+  forall e, In e es -> beneath_b (eb e) bp i (i + 1) = false.
+
+Lemma beneath_b_sub q k g B lo hi :
+  beneath_b (SubBlock q k g) B lo hi = (bpath_eqb q B && (lo <=? k) && (k <? hi)) || beneath_b q B lo hi.
+Proof. simpl. destruct (bpath_eqb q B && (lo <=? k) && (k <? hi)); reflexivity. Qed.
+
+Lemma beneath_self bp i f : beneath_b (SubBlock bp i f) bp i (i + 1) = true.
+Proof.
+  rewrite beneath_b_sub, bpath_eqb_refl.
+  destruct (Z.leb_spec i i); [|lia]. destruct (Z.ltb_spec i (i + 1)); [|lia]. reflexivity.
+Qed.
+
+Lemma beneath_child p : forall bp i f j,
+  beneath_b p (SubBlock bp i f) j (j + 1) = true -> beneath_b p bp i (i + 1) = true.
+Proof.
+  induction p as [|q IH k g]; intros bp i f j H; [discriminate|].
+  rewrite beneath_b_sub in H. rewrite beneath_b_sub.
+  apply orb_true_iff in H as [H|H].
+  - apply andb_true_iff in H as [H _]. apply andb_true_iff in H as [H _].
+    apply bpath_eqb_eq in H. subst q. rewrite beneath_self. apply orb_true_r.
+  - rewrite (IH bp i f j H). apply orb_true_r.
+Qed.
+
+Lemma none_beneath_block es bp i f :
+  none_beneath es bp i ->
+  (forall j, starts es (SubBlock bp i f) j = []) /\
+  (forall j, covered es (SubBlock bp i f) j = false) /\
+  (forall j, none_beneath es (SubBlock bp i f) j).
+Proof.
+  intros H.
+  assert (Hne : forall e, In e es -> bpath_eqb (eb e) (SubBlock bp i f) = false).
+  { intros e He. destruct (bpath_eqb (eb e) (SubBlock bp i f)) eqn:E; [|reflexivity].
+    apply bpath_eqb_eq in E. specialize (H e He). rewrite E, beneath_self in H. discriminate. }
+  split; [|split].
+  - intros j. unfold starts. apply flat_map_nil. intros e He. rewrite (Hne e He). reflexivity.
+  - intros j. unfold covered. destruct (existsb _ es) eqn:E; [|reflexivity].
+    apply existsb_exists in E as (e & He & Hc). rewrite (Hne e He) in Hc. discriminate.
+  - intros j e He. destruct (beneath_b (eb e) (SubBlock bp i f) j (j + 1)) eqn:E; [|reflexivity].
+    apply beneath_child in E. rewrite (H e He) in E. discriminate.
+Qed.
+
+Lemma apply_stmt_id es s : forall bp i, none_beneath es bp i -> apply_stmt es bp i s = s.
+Proof.
+  induction s as [l|l b IH|l a b IHa IHb] using stmt_ind2; intros bp i H; simpl.
+  - reflexivity.
+  - destruct (none_beneath_block es bp i FBody H) as (Hs & Hc & Hn).
+    rewrite splice_id; [reflexivity|exact Hs|exact Hc|].
+    eapply Forall_impl; [|exact IH]. intros s Hs' j. apply Hs'. apply Hn.
+  - destruct (none_beneath_block es bp i FIft H) as (Hs & Hc & Hn).
+    destruct (none_beneath_block es bp i FIff H) as (Hs2 & Hc2 & Hn2).
+    rewrite !splice_id; [reflexivity|exact Hs2|exact Hc2| |exact Hs|exact Hc|].
+    + eapply Forall_impl; [|exact IHb]. intros s Hs' j. apply Hs'. apply Hn2.
+    + eapply Forall_impl; [|exact IHa]. intros s Hs' j. apply Hs'. apply Hn.
+Qed.
+
+(* a statement no edit consumed and no edit lies beneath is, whole, at its forwarded path *)
+Theorem untouched_unchanged es t p s :
+  edits_ok es -> pairwise es = true -> resolve_stmt t p = Ok s ->
+  none_beneath es (fst p) (snd p) ->
+  forall b' i', forward_stmt es p = Ok (b', i', None) ->
+  resolve_stmt (apply es t) (b', i') = Ok s.
+Proof.
+  intros Hok Hp Hr Hn b' i' Hf.
+  pose proof (forward_stmt_sound es t p s Hok Hp Hr) as H. rewrite Hf in H.
+  destruct H as [_ H]. rewrite H. rewrite apply_stmt_id by exact Hn. reflexivity.
+Qed.
+
+(* ------------------------------------------------------------------ the parent chain *)
+
+Theorem forward_compose f r c :
+  chain_forward (f :: r) c =
+  if f_ast f =? cursor_fn c then Ok c else replay_step (chain_forward r c) (f_log f).
+Proof.
+  unfold chain_forward. simpl collect.
+  destruct (f_ast f =? cursor_fn c); [reflexivity|].
+  destruct (collect r (cursor_fn c)) as [ls|]; [|reflexivity].
+  simpl rev. rewrite fold_left_app. reflexivity.
+Qed.
+
+Lemma chain_forward_nil c : chain_forward [] c = Err RefErr.
+Proof. reflexivity. Qed.
+
+(* every failure of forwarding is a reference error *)
+Lemma resolve_block_err t p : forall x, resolve_block t p = Err x -> x = RefErr.
+Proof.
+  induction p as [|q IH i f]; simpl; intros x H; [discriminate|].
+  destruct (resolve_block t q); [|inversion H; subst; apply IH; reflexivity].
+  destruct (nthZ i a); [|inversion H; reflexivity].
+  destruct (sub_block s f); inversion H; reflexivity.
+Qed.
+
+Lemma resolve_stmt_err t p x : resolve_stmt t p = Err x -> x = RefErr.
+Proof.
+  unfold resolve_stmt. destruct (resolve_block t (fst p)) eqn:E.
+  - destruct (nthZ (snd p) a); intros H; inversion H; reflexivity.
+  - intros H; inversion H; subst. eapply resolve_block_err. exact E.
+Qed.
+
+Lemma mk_stmt_cursor_err fn t p x : mk_stmt_cursor fn t p = Err x -> x = RefErr.
+Proof.
+  unfold mk_stmt_cursor. destruct (resolve_stmt t p) eqn:E; [discriminate|].
+  intros H; inversion H; subst. eapply resolve_stmt_err. exact E.
+Qed.
+
+Lemma mk_block_cursor_err fn t b lo hi x : mk_block_cursor fn t b lo hi = Err x -> x = RefErr.
+Proof.
+  unfold mk_block_cursor. destruct (resolve_block t b) eqn:E.
+  - destruct ((0 <=? lo) && (hi <=? zlen a)); intros H; inversion H; reflexivity.
+  - intros H; inversion H; subst. eapply resolve_block_err. exact E.
+Qed.
+
+Lemma forward_stmt_err es p x : forward_stmt es p = Err x -> x = RefErr.
+Proof.
+  unfold forward_stmt. destruct (forward_block es (fst p)) eqn:E.
+  - destruct (snd (scan es (fst p) (snd p))); discriminate.
+  - intros H; inversion H; subst. apply forward_block_err in E. apply E.
+Qed.
+
+Lemma forward_stmt_cursor_err lg fn p x : forward_stmt_cursor lg fn p = Err x -> x = RefErr.
+Proof.
+  unfold forward_stmt_cursor. destruct (negb (fn =? l_src lg)); [intros H; inversion H; reflexivity|].
+  destruct (forward_stmt (l_edits lg) p) as [[[b i] [e|]]|y] eqn:E.
+  - destruct (eins e =? 1); [apply mk_stmt_cursor_err|].
+    destruct (eins e =? 0); [intros H; inversion H; reflexivity|apply mk_block_cursor_err].
+  - apply mk_stmt_cursor_err.
+  - intros H; inversion H; subst. eapply forward_stmt_err. exact E.
+Qed.
+
+Lemma mapM_err {A B} (f : A -> res B) l x :
+  (forall a y, f a = Err y -> y = RefErr) -> mapM f l = Err x -> x = RefErr.
+Proof.
+  intros Hf. induction l as [|a r IH]; simpl; [discriminate|].
+  destruct (f a) eqn:E; [|intros H; inversion H; subst; eapply Hf; exact E].
+  destruct (mapM f r); [discriminate|]. intros H; inversion H; subst. apply IH. reflexivity.
+Qed.
+
+Lemma forward_err lg c x : forward lg c = Err x -> x = RefErr.
+Proof.
+  destruct c as [fn p|fn b lo hi|fn p sfx]; simpl.
+  - apply forward_stmt_cursor_err.
+  - unfold forward_region. destruct (Z.max 0 (hi - lo) =? 0); [intros H; inversion H; reflexivity|].
+    destruct (mapM _ _) as [imgs|y] eqn:E.
+    + destruct (map img_of imgs) as [|[[p0 s0] t0] rest]; [intros H; inversion H; reflexivity|].
+      destruct (forallb _ rest && adjacent _); [|intros H; inversion H; reflexivity].
+      destruct (Z.max 0 _ =? 1); [apply mk_stmt_cursor_err|apply mk_block_cursor_err].
+    + intros H; inversion H; subst. eapply mapM_err; [|exact E].
+      intros a y. apply forward_stmt_cursor_err.
+  - unfold forward_expr. destruct (negb (fn =? l_src lg)); [intros H; inversion H; reflexivity|].
+    destruct (negb (l_preserved lg)); [intros H; inversion H; reflexivity|].
+    destruct (existsb _ _); [intros H; inversion H; reflexivity|].
+    destruct (forward_stmt (l_edits lg) p) as [[[b i] [e|]]|y] eqn:E.
+    + intros H; inversion H; reflexivity.
+    + destruct (resolve_stmt (l_rtree lg) (b, i)) eqn:E2; [discriminate|].
+      intros H; inversion H; subst. eapply resolve_stmt_err. exact E2.
+    + intros H; inversion H; subst. eapply forward_stmt_err. exact E.
+Qed.
+
+Lemma replay_err logs : forall r x, fold_left replay_step logs r = Err x ->
+  (forall y, r = Err y -> y = RefErr) -> x = RefErr.
+Proof.
+  induction logs as [|lg ls IH]; simpl; intros r x H Hr; [apply Hr; exact H|].
+  apply (IH _ _ H). intros y Hy. unfold replay_step in Hy.
+  destruct r as [c|z]; [|inversion Hy; subst; apply Hr; reflexivity].
+  destruct lg as [l|]; [eapply forward_err; exact Hy|inversion Hy; reflexivity].
+Qed.
+
+Theorem chain_forward_err chain c x : chain_forward chain c = Err x -> x = RefErr.
+Proof.
+  unfold chain_forward. destruct (collect chain (cursor_fn c)); [|intros H; inversion H; reflexivity].
+  intros H. eapply replay_err; [exact H|]. intros y Hy. discriminate.
+Qed.
+
+(* a pass that reported nothing stops the walk *)
+Theorem opaque_pass_stops f r c :
+  (f_ast f =? cursor_fn c) = false -> f_log f = None -> chain_forward (f :: r) c = Err RefErr.
+Proof.
+  intros Hne Hl. rewrite forward_compose, Hne, Hl. unfold replay_step.
+  destruct (chain_forward r c) as [c'|x] eqn:E; [reflexivity|].
+  apply chain_forward_err in E. subst. reflexivity.
+Qed.
+
+(* a cursor of a program that is not on the chain does not forward *)
+Theorem unrelated_program chain c :
+  (forall f, In f chain -> (f_ast f =? cursor_fn c) = false) -> chain_forward chain c = Err RefErr.
+Proof.
+  intros H. unfold chain_forward.
+  replace (collect chain (cursor_fn c)) with (@None (list (option elog))); [reflexivity|].
+  symmetry. induction chain as [|f r IH]; simpl; [reflexivity|].
+  rewrite (H f (or_introl eq_refl)). rewrite IH; [reflexivity|].
+  intros g Hg. apply H. right. exact Hg.
+Qed.
